@@ -12,6 +12,7 @@ from .. import loader
 
 PROP = "C20"
 LEVEL = "exploration"
+ANCHORS = ["trace_res", "plane_res"]  # functions whose reached lines are reported in the evidence
 RULE = (
     "cases = keyword arguments for trace_res/plane_res drawn log-uniformly (dimensions over 12 decades, "
     "resistivity over 6, temp -200..500, tcr 0..0.1, defaults present/absent) plus the documentation "
